@@ -216,6 +216,9 @@ pub fn schedule(ctl: &Arc<dsched::Ctl>, tmp: &std::path::Path, a: &str, b: &str,
             fails.push(format!("C10: a reader of region 'a' created before the schedule returns foreign bytes: byte {at} is {:#x}, the region held {:#x}", now[at], old[at]));
         }
     }
+    // when B had to wait for a lock A holds, A was released and both ran concurrently: the failure then is a race of
+    // the two operations, not something A's parking point alone explains — say so in the message
+    if out.script_waited { for f in fails.iter_mut() { f.push_str(" [B had to wait: A and B ran concurrently]"); } }
     let d = if out.subject_panicked || out.script_panicked { "-".to_string() } else { dump(&w.db) };
     drop(held);
     let o = if fails.is_empty() { "ok".to_string() } else { fails.truncate(3); format!("fail:{}", fails.join("; ")) };
@@ -241,7 +244,11 @@ pub fn main(args: &Args) -> i32 {
     let ctl = dsched::Ctl::install();
     match args.0.get(1).map(|s| s.as_str()).unwrap_or("") {
         "gen" => {
-            let all = pairs();
+            // `--only <word>`: the pairs in which thread A's operation or thread B's script is <word> (C12 uses `compact`)
+            let all: Vec<(String, String, bool)> = match args.get("--only") {
+                Some(w) => pairs().into_iter().filter(|(a, b, _)| a == w || b == w).collect(),
+                None => pairs(),
+            };
             let cases = args.num("--cases", 1) as usize;
             let first = args.num("--first-case", 0) as usize;
             let stride = args.num("--len", 1).max(1);       // every `stride`-th pause point (1 = all)
